@@ -161,6 +161,7 @@ func runC10(r *Run) {
 	})
 	r.Check(la, "C10.purge", name, "candidates for removal are the last active set", "the purge loop walks the keys of lastActive (validators Tendermint currently has)",
 		"removals are no longer drawn from the last active set: a validator that is not in Tendermint's set could be removed", p.pos(fn.Pos()))
+	checkQueueDrained(r, fn)
 	// purge window: appended iff NOT(purgeHeight > 0 && height <= purgeHeight+2)
 	var gph *ssa.Call
 	allInstrs(fn, func(ins ssa.Instruction) {
@@ -401,4 +402,102 @@ func isReqHeight(v ssa.Value, fn *ssa.Function) bool {
 		return strings.Contains(tname(prm.Type()), "RequestEndBlock")
 	}
 	return false
+}
+
+// checkQueueDrained (C10.drain): the election loop examines every queued candidate. A candidate that is never popped is
+// neither elected nor recorded as non-top, and only validators recorded as non-top are ever removed from the active set: a
+// loop that stops once the seats are filled leaves an outbid validator in Tendermint's set for good. Structural form: every
+// edge that leaves the loop around queue.Pop() is the "queue is empty" edge of a test of queue.Len().
+func checkQueueDrained(r *Run, fn *ssa.Function) {
+	p := r.P
+	name := fname(fn)
+	var pop *ssa.Call
+	allInstrs(fn, func(ins ssa.Instruction) {
+		if c, ok := ins.(*ssa.Call); ok && calleeName(c) == "(*identity.ValidatorQueue).Pop" && pop == nil {
+			pop = c
+		}
+	})
+	if pop == nil {
+		fail("C10.drain: no ValidatorQueue.Pop in %s", name)
+	}
+	hdr := loopHeaderOf(pop.Block())
+	if hdr == nil {
+		r.Viol("C10.drain", name, "election loop", "queue.Pop() is not inside a loop: at most one candidate is examined", p.ipos(pop), nil)
+		return
+	}
+	inLoop := map[*ssa.BasicBlock]bool{hdr: true}
+	for b := range reachFrom(hdr, nil) {
+		if reachFrom(b, nil)[hdr] {
+			inLoop[b] = true
+		}
+	}
+	isLen := func(v ssa.Value) bool {
+		c, ok := v.(*ssa.Call)
+		return ok && calleeName(c) == "(*identity.ValidatorQueue).Len"
+	}
+	bad := ""
+	exits := 0
+	for b := range inLoop {
+		for si, sc := range b.Succs {
+			if inLoop[sc] {
+				continue
+			}
+			exits++
+			okExit := false
+			if iff := blockIf(b); iff != nil {
+				v, flip := stripNot(iff.Cond)
+				if bo, isB := v.(*ssa.BinOp); isB {
+					var rel token.Token
+					var k int64
+					okc := false
+					if isLen(bo.X) {
+						if kk, isK := intConst(bo.Y); isK {
+							rel, k, okc = bo.Op, kk, true
+						}
+					} else if isLen(bo.Y) {
+						if kk, isK := intConst(bo.X); isK {
+							rel, k, okc = mirror(bo.Op), kk, true
+						}
+					}
+					if okc {
+						// the exit edge is taken when (Len rel k) is (si == 0) xor flip; it must imply Len == 0, i.e. it must
+						// be false for every Len >= 1
+						taken := si == 0
+						if flip {
+							taken = !taken
+						}
+						holds := func(n int64) bool {
+							var t bool
+							switch rel {
+							case token.GTR:
+								t = n > k
+							case token.GEQ:
+								t = n >= k
+							case token.LSS:
+								t = n < k
+							case token.LEQ:
+								t = n <= k
+							case token.EQL:
+								t = n == k
+							case token.NEQ:
+								t = n != k
+							}
+							return t == taken
+						}
+						okExit = holds(0)
+						for n := int64(1); n <= 3; n++ {
+							if holds(n) {
+								okExit = false
+							}
+						}
+					}
+				}
+			}
+			if !okExit {
+				bad = p.ipos(b.Instrs[len(b.Instrs)-1])
+			}
+		}
+	}
+	r.Check(bad == "" && exits > 0, "C10.drain", name, "the election loop ends only when the queue is empty", "every exit of the loop around queue.Pop() is the empty-queue edge of a queue.Len() test",
+		"the election loop can end while candidates are still queued: they are neither elected nor recorded as non-top, so a validator that was outbid is never removed from the active set (and the set never converges to the election)", bad)
 }
